@@ -107,8 +107,17 @@ class C13(Check):
             # workflows (compiled at different step sizes) meet the same delay value
             dl = (lambda r: {'delay': r.choice([0.004, 0.02, 0.1])} if r.random() < 0.5 else {}) \
                 if rng.random() < 0.33 else None
+            perm = stratum in ('S-opname', 'S-all') and not uniq and not tab and rng.random() < 0.2
+            if perm:
+                libs = ('osc',)
             spec = models.gen_net(rng, n_nodes=rng.randint(1, 4), uniq=uniq, max_edges=4, delays=dl,
                                   libs=libs, hier=rng.random() < 0.15, build='python' if tab else None)
+            if perm:
+                # one operator name, one set of equations and declarations - written in either order by different workflows
+                for o in spec['ops'].values():
+                    o['name'] = 'op'
+                    o['eq_rev'] = rng.random() < 0.5
+                _rename_edges(spec)
             if dl is None and rng.random() < 0.3:
                 models.add_edge_templates(rng, spec, p=0.6, uniq=uniq)
             for o in spec['ops'].values():
